@@ -48,7 +48,9 @@ def hostile_dgram(r, state):
         code = r.choice([0x45, 0x44, 0x5f, 0x84, 0xa0, 0x00, 0x41, 0x01, r.randrange(256)])
     else:
         ty = r.choice([0, 0, 1, 2, 3])
-        code = r.choice([1, 1, 2, 3, 4, 5, 6, 7, 0, 0x45, 0xe1, r.randrange(256)])
+        # every request code incl. the unassigned 0.08 .. 0.31 (method table bounds)
+        code = r.choice([1, 1, 2, 3, 4, 5, 6, 7, 8, 9, 31, r.randrange(8, 32), 0, 0x45, 0xe1,
+                         r.randrange(256)])
     opts = []
 
     def uv(maxlen=4):
@@ -81,6 +83,17 @@ def hostile_dgram(r, state):
         code = r.choice([2, 2, 5, 0x44, 1])
     if state != "client" or r.random() < 0.2:
         opts.append((11, path))
+    if r.random() < 0.12:
+        # option area larger than the 256-byte initial PDU allocation (copies / duplicates of the
+        # request are made for observe registrations, block-wise state, async, caches)
+        big = [(15, b"q=" + bytes([97 + r.randrange(26)]) * r.choice([200, 247, 248, 249, 250, 253]))
+               for _ in range(r.choice([1, 1, 2, 4]))]
+        opts += big
+        if r.random() < 0.7:
+            tok = gen_wire.rbytes(r, 8)
+        if r.random() < 0.6 and state != "client":
+            opts = [o for o in opts if o[0] != 6] + [(6, b"")]
+            code = 1
     opts.sort(key=lambda o: o[0])
     pl = b"" if r.random() < 0.5 else gen_wire.rbytes(r, r.choice([1, 3, 16, 63, 64, 65, 200]))
     b = gen_wire.py_serialize("udp", ty, code, mid, tok, opts, pl)
@@ -351,7 +364,14 @@ def main(run):
                     if len(stream) > 1 else []
                 cuts = gen_stream.cuts_to_token(pts, len(stream))
             tl.append("ws %d %s %s" % (r.choice([0, 0, 1]), stream.hex(), cuts))
-    to, tcr = vlib.run_lines_robust(hs, tl, env=asan_env, timeout=1800)
+    # one driver process per 250 streams: the driver keeps a few descriptors per case open and
+    # libcoap's WebSocket close path uses select(), i.e. FD_SET, which is only defined for
+    # descriptors below FD_SETSIZE (1024) - a limit of the library that is not peer-controlled
+    to, tcr = [], []
+    for off in range(0, len(tl), 250):
+        o1, c1 = vlib.run_lines_robust(hs, tl[off:off + 250], env=asan_env, timeout=1800)
+        to.extend(o1)
+        tcr.extend((off + ci, rc, e) for (ci, rc, e) in c1)
     ntcp = 0
     for i, ln in enumerate(tl):
         run.count(ln, True)
